@@ -254,8 +254,11 @@ type mockSender struct {
 	bySig    map[string]proofID
 	failLeft map[proofID]int
 	txN      int
-	// steer (directed scenario only): a failing tx reports back once this returns true (bounded wait)
+	// steer (directed scenarios only): a failing tx reports back once this returns true (bounded wait)
 	steer func(items []txItem) bool
+	// hold (directed scenarios only): called by every tx before it reports back
+	hold    func(items []txItem, fail bool)
+	entered atomic.Int64
 }
 
 func (m *mockSender) register(id proofID, sig []byte, failK int) {
@@ -297,6 +300,10 @@ func (m *mockSender) TxRelayPayment(ctx context.Context, relays []*pairingtypes.
 	m.txN++
 	m.mu.Unlock()
 	m.sk.emit(event{K: "tx", Clock: m.clock.Load(), Items: items, Fail: fail})
+	m.entered.Add(1)
+	if m.hold != nil {
+		m.hold(items, fail)
+	}
 	if fail && m.steer != nil {
 		for i := 0; i < 20000 && !m.steer(items); i++ {
 			runtime.Gosched()
@@ -889,8 +896,27 @@ func (rr *roundRec) evalLifetime(lt *lifetimeRec) {
 					}
 				}
 			}
+			// or: was the proof submitted twice within one step, i.e. by two overlapping epoch updates?
+			overlap := false
+			for _, st := range lt.steps {
+				c := 0
+				for _, tx := range lt.txs {
+					if tx.t > st.tbegin && (st.tend == 0 || tx.t < st.tend) {
+						for _, it := range tx.items {
+							if it.Known && (proofID{it.Key, it.Cu, it.Rn}) == id {
+								c++
+							}
+						}
+					}
+				}
+				if c >= 2 {
+					overlap = true
+				}
+			}
 			sig := "no-equal-session-id-in-between"
-			if collision {
+			if overlap {
+				sig = "overlapping-epoch-updates/both-resend-the-retry-table"
+			} else if collision {
 				sig = "retry-table-keyed-by-session-id/claim-of-another-session-with-equal-id-in-between"
 			}
 			rec.violation("proof-submitted-too-often", sig,
@@ -1275,6 +1301,70 @@ func runDirectedCollision(rec *recorder, seed int64, classes map[string]int) {
 	finishRound(rec, rr, classes, "directed: equal session id under different consumers, one transaction always failing")
 }
 
+// runDirectedOverlap: two epoch updates that overlap (UpdateEpoch starts a goroutine per epoch; the
+// previous one may still be waiting for its transaction). A proof whose first two transactions fail is in
+// the retry table; both overlapping updates gather the table and submit it. The mock holds each tx until
+// both updates have sent theirs, and lets the failing one report back after the successful one was processed.
+func runDirectedOverlap(rec *recorder, seed int64, classes map[string]int) {
+	w := newWorld(seed, -2)
+	w.Small, w.Specs, w.Sessions, w.K, w.Mm, w.G, w.PerG, w.Steps = true, []string{"LAV1"}, []uint64{7}, 2, 9, 8, 1, 6
+	dir, err := os.MkdirTemp("", "verif-c29-directed-*")
+	if err != nil {
+		panic(err)
+	}
+	defer os.RemoveAll(dir)
+	sk := &sink{}
+	d := newDriver(w, sk, dir)
+	rr := &roundRec{w: w, submittedEver: map[pkey]bool{}, snapEvidence: map[pkey]uint64{}, rec: rec, classes: classes}
+	d.startFresh()
+	var overlapping atomic.Bool
+	tableHas7 := func() bool {
+		for _, r := range d.srv.VerifRetryTable() {
+			if r.TableKey == 7 {
+				return true
+			}
+		}
+		return false
+	}
+	d.mock.hold = func(items []txItem, fail bool) {
+		if !overlapping.Load() {
+			return
+		}
+		for i := 0; i < 20000 && d.mock.entered.Load() < 2; i++ { // bounded: both updates have sent their tx
+			runtime.Gosched()
+			time.Sleep(20 * time.Microsecond)
+		}
+		if fail {
+			for i := 0; i < 20000 && tableHas7(); i++ { // bounded: the successful one has been processed
+				runtime.Gosched()
+				time.Sleep(20 * time.Microsecond)
+			}
+		}
+	}
+	lt := newLifetime(0, "fresh", w, nil, d.clock)
+	rr.lts = append(rr.lts, lt)
+	rng := vrand.Sub(seed, "c29-directed", 1)
+	k := pkey{Epoch: d.clock, Cons: 0, Spec: "LAV1", Sess: 7}
+	d.nextRn[k], d.lastCu[k] = 2, 10
+	d.byEpoch[k.Epoch] = append(d.byEpoch[k.Epoch], k)
+	d.step(rng, stepOpts{scripted: []planned{{K: k, Cu: 10, Rn: 1, FailK: 2}}, sends: true, claims: 0})
+	d.step(rng, stepOpts{advance: 1, scripted: []planned{}, sends: true, claims: 1})
+	d.step(rng, stepOpts{advance: 1, scripted: []planned{}, sends: true, claims: 1}) // first submission, fails
+	for i := 0; i < 2; i++ {
+		d.mock.entered.Store(0)
+		overlapping.Store(true)
+		d.step(rng, stepOpts{advance: 1, scripted: []planned{}, sends: true, claims: 2}) // this epoch's update and the delayed previous one
+		overlapping.Store(false)
+	}
+	d.step(rng, stepOpts{advance: 1, scripted: []planned{}, sends: true, claims: 1})
+	lt.events = sk.take()
+	rr.evalLifetime(lt)
+	d.srv.CloseAllDataBases()
+	rec.Evals++
+	classes["directed_overlapping_epoch_update_scenarios"]++
+	finishRound(rec, rr, classes, "directed: two overlapping epoch updates, a proof whose first two transactions fail")
+}
+
 func newWorldWithConsumers(w *world, n int) *world {
 	kr := sigs.NewZeroReader(w.Seed*104729 + 17)
 	w.accs, w.addrs = nil, nil
@@ -1514,11 +1604,11 @@ func worker(resultPath string) {
 	silence()
 	lavarand.SetSpecificSeed(run.Seed)
 	total := newRecorder()
-	rounds := run.Pick(12, 300)
+	rounds := run.Pick(12, 200)
 	if v, err := strconv.Atoi(os.Getenv("VERIF_C29_DEBUG_ROUNDS")); err == nil && v > 0 {
 		rounds = v // debugging aid only; ./check never sets it
 	}
-	jobs := []job{{round: -1}}
+	jobs := []job{{round: -1}, {round: -2}}
 	for r := 0; r < rounds; r++ {
 		jobs = append(jobs, job{round: r})
 	}
@@ -1557,6 +1647,8 @@ func worker(resultPath string) {
 				rec, classes := newRecorder(), map[string]int{}
 				if j.round == -1 {
 					runDirectedCollision(rec, run.Seed, classes)
+				} else if j.round == -2 {
+					runDirectedOverlap(rec, run.Seed, classes)
 				} else if j.crash == nil {
 					runRound(rec, run.Seed, j.round, classes)
 					if classes["out_of_order_lower_proof_rejected"] > 0 && classes["proof_retried"] > 0 && classes["restart_obligation_claimed"] > 0 {
@@ -1703,7 +1795,7 @@ func TestC29(t *testing.T) {
 	run.Set("race_reports_not_attributed", other)
 	run.Count("race_reports_not_attributed", len(other))
 
-	if run.Violations() == 0 {
+	{
 		c := func(k string) bool { return rec.Counters[k] > 0 }
 		run.Require("out-of-order (lower) proofs were rejected", c("out_of_order_lower_proof_rejected"))
 		run.Require("equal-CU duplicates were rejected", c("equal_cu_duplicate_rejected"))
@@ -1724,7 +1816,7 @@ func TestC29(t *testing.T) {
 			run.Require("obligations after a crash were evaluated", c("restart_obligations_after_crash"))
 		}
 	}
-	floor := run.Pick(5, 120)
+	floor := run.Pick(5, 90)
 	run.Finish("rounds of 8-32 goroutines sending signed proofs in shuffled order (higher, lower, equal-CU duplicates, stragglers after the epoch left the window) for few session ids shared by consumers / epochs / chains, concurrent with synchronous epoch updates (incl. an overlapping delayed update), snapshots and scripted fail-k-times transactions, on the real RewardServer + badger reward DB with in-process abandon-and-reopen restarts (thorough: child processes killed at each crash point x n-th arrival and by SIGKILL at PRNG-chosen op counts). Oracles over the logical-time event log: no claim in the active window / out of chain memory; every claimable key submitted with at least the best CuSum received before the update began; each proof submitted <= 1+3 times per lifetime; SendNewProof results + claimed CuSums linearizable as a max-register (porcupine); DB contents at restart restored and claimed; snapshotted unclaimed proofs present in the DB. A round is non-trivial when in it a lower out-of-order proof was rejected, a failed claim was retried and a restart obligation was claimed; distinct = distinct rounds", floor,
 		"the epoch clock does not move while an epoch update is running (it is advanced between steps)",
 		"'configured number of retries' = MaxPaymentRequestsRetiresForSession (3); a proof = (epoch, consumer, chain, session, CuSum, relay number)",
